@@ -22,7 +22,7 @@ type thread struct {
 	wake      chan struct{}
 	done      bool
 	panic     interface{}
-	blockedOn verifsched.Locker // mutex the thread waits for (nil = runnable)
+	blockedOn interface{} // key of the mutex the thread waits for (nil = runnable)
 }
 
 type event struct {
@@ -43,8 +43,16 @@ var (
 	active  bool
 	byGoid  map[uint64]*thread
 	parkedC chan event
-	owner   map[verifsched.Locker]*thread
+	owner   map[interface{}]*thread
 )
+
+// lockKey: reader and writer side of one RWMutex contend on the same model lock.
+func lockKey(m verifsched.Locker) interface{} {
+	if k, ok := m.(interface{ Key() interface{} }); ok {
+		return k.Key()
+	}
+	return m
+}
 
 // lockPoint models a blocking mutex acquisition: a scheduling point first; while another
 // managed thread owns the mutex the caller is not runnable.
@@ -57,15 +65,16 @@ func lockPoint(m verifsched.Locker) {
 		m.Lock()
 		return
 	}
+	k := lockKey(m)
 	for {
-		if owner[m] != nil {
-			t.blockedOn = m
+		if owner[k] != nil {
+			t.blockedOn = k
 		}
 		parkedC <- event{t: t}
 		<-t.wake
-		if owner[m] == nil {
+		if owner[k] == nil {
 			t.blockedOn = nil
-			owner[m] = t
+			owner[k] = t
 			m.Lock()
 			return
 		}
@@ -74,8 +83,8 @@ func lockPoint(m verifsched.Locker) {
 
 func unlockPoint(m verifsched.Locker) {
 	if active {
-		if t := byGoid[runtime.VerifGoid()]; t != nil && owner[m] == t {
-			delete(owner, m)
+		if t := byGoid[runtime.VerifGoid()]; t != nil && owner[lockKey(m)] == t {
+			delete(owner, lockKey(m))
 		}
 	}
 	m.Unlock()
@@ -122,7 +131,7 @@ func Run(bodies []func(), ch Chooser, horizon int) Result {
 		<-ready
 		byGoid[t.goid] = t
 	}
-	owner = map[verifsched.Locker]*thread{}
+	owner = map[interface{}]*thread{}
 	verifsched.Hook = point
 	verifsched.LockHook = lockPoint
 	verifsched.UnlockHook = unlockPoint
